@@ -134,6 +134,59 @@ func checkOneLayout(name string, file []byte, w *wl.Workload, indexed bool) (int
 				return reads, err
 			}
 		}
+		// two iterators of that Reader advanced in lockstep, a metadata lookup between every two steps (a
+		// two-stream merge that also consults metadata): both must return their full selections
+		infoL, _ := one.Info()
+		itA, errA := one.Messages(mcap.InOrder(mcap.FileOrder))
+		itB, errB := one.Messages(mcap.InOrder(mcap.LogTimeOrder))
+		if errA != nil || errB != nil {
+			one.Close()
+			return reads, pk.Failf("indexed-error", "%s: Messages on one Reader: %v / %v", name, errA, errB)
+		}
+		var gotA, gotB []mc.Triple
+		doneA, doneB := false, false
+		for step := 0; !(doneA && doneB); step++ {
+			if step > 4*len(all)+8 {
+				one.Close()
+				return reads, pk.Failf("extra", "%s: lockstep iterators do not end", name)
+			}
+			if !doneA {
+				s, c, m, err := itA.NextInto(nil)
+				if err != nil {
+					doneA = true
+					if !errors.Is(err, io.EOF) {
+						one.Close()
+						return reads, pk.Failf("indexed-error", "%s: file-order iterator advanced in lockstep with a log-time iterator of the same Reader: %v after %d items", name, err, len(gotA))
+					}
+				} else {
+					gotA = append(gotA, mc.Triple{S: mc.FromSchema(s), C: mc.FromChannel(c), M: mc.FromMessage(m)})
+				}
+			}
+			if infoL != nil && len(infoL.MetadataIndexes) > 0 && step%2 == 0 {
+				_, _ = one.GetMetadata(infoL.MetadataIndexes[step/2%len(infoL.MetadataIndexes)].Offset)
+			}
+			if !doneB {
+				s, c, m, err := itB.NextInto(nil)
+				if err != nil {
+					doneB = true
+					if !errors.Is(err, io.EOF) {
+						one.Close()
+						return reads, pk.Failf("indexed-error", "%s: log-time iterator advanced in lockstep with a file-order iterator of the same Reader: %v after %d items", name, err, len(gotB))
+					}
+				} else {
+					gotB = append(gotB, mc.Triple{S: mc.FromSchema(s), C: mc.FromChannel(c), M: mc.FromMessage(m)})
+				}
+			}
+		}
+		reads += 2
+		if err := checkSelection(name+", file-order iterator in lockstep with another on one Reader", gotA, all, pl, mcap.FileOrder); err != nil {
+			one.Close()
+			return reads, err
+		}
+		if err := checkSelection(name+", log-time iterator in lockstep with another on one Reader", gotB, all, pl, mcap.LogTimeOrder); err != nil {
+			one.Close()
+			return reads, err
+		}
 		one.Close()
 	}
 	// Info
